@@ -242,6 +242,12 @@ func MakeAF(kind string, idx int) *astits.PacketAdaptationField {
 	case "extltw": // legal time window present but flagged not valid (the offset is carried all the same), nothing else
 		return &astits.PacketAdaptationField{HasAdaptationExtensionField: true, AdaptationExtensionField: &astits.PacketAdaptationExtensionField{
 			HasLegalTimeWindow: true, LegalTimeWindowIsValid: false, LegalTimeWindowOffset: 0x2345}}
+	case "extpw": // piecewise rate alone / seamless splice alone: each part of the extension stands without the others
+		return &astits.PacketAdaptationField{HasAdaptationExtensionField: true, AdaptationExtensionField: &astits.PacketAdaptationExtensionField{
+			HasPiecewiseRate: true, PiecewiseRate: 0x155555}}
+	case "extss":
+		return &astits.PacketAdaptationField{HasAdaptationExtensionField: true, AdaptationExtensionField: &astits.PacketAdaptationExtensionField{
+			HasSeamlessSplice: true, SpliceType: 5, DTSNextAccessUnit: cr(0x0_8765_4321, 0)}}
 	case "ext":
 		return &astits.PacketAdaptationField{HasAdaptationExtensionField: true, AdaptationExtensionField: &astits.PacketAdaptationExtensionField{
 			HasLegalTimeWindow: true, LegalTimeWindowIsValid: true, LegalTimeWindowOffset: 0x1234,
